@@ -68,7 +68,13 @@ def engine(ctx, rel, qual, **kw):
         return cache[key]
     m = ctx.src.mod(rel)
     fn = ctx.src.func(rel, qual)
-    E = M.Engine(m, fn, follow=helpers_of(m), **kw)
+    follow = helpers_of(m)
+    if "." in qual:
+        # a nested function evaluated on its own: the other functions nested in the same parent are followed like module-level helpers
+        pre = qual.rsplit(".", 1)[0] + "."
+        follow = dict(follow)
+        follow.update({q[len(pre):]: f for q, f in m.funcs.items() if q.startswith(pre) and "." not in q[len(pre):] and "#" not in q and f is not fn})
+    E = M.Engine(m, fn, follow=follow, **kw)
     E.run()
     cache[key] = E
     return E
@@ -579,12 +585,14 @@ def _pair_source(args, head, N):
         base, idx = a[1], a[2]
         if isinstance(idx, tuple) and idx[:1] == ("sym",):
             idx = lin(idx)
-        if isinstance(base, tuple) and base[:1] == ("slice",) and base[4] == Lin(c=1) and isinstance(it, tuple) and it[:2] == ("op", "zip"):
-            # zip(t[u:], d[u:]) -> element k of the slice
-            end = N if base[3] == ("k", None) else lin(base[3])
-            bases.append(M.origin(base[1]))
-            los.append(lin(base[2]))
-            his.append(end)
+        if isinstance(it, tuple) and it[:2] == ("op", "zip") and isinstance(tgt, tuple) and tgt[:1] == ("tuple",) and a in tgt[1]:
+            # zip(t[u:], d[u:]): the argument is the element the loop takes from one of the zipped slices
+            src = it[2][tgt[1].index(a)]
+            if not (isinstance(src, tuple) and src[:1] == ("slice",) and src[4] == Lin(c=1)):
+                return None
+            bases.append(M.origin(src[1]))
+            los.append(lin(src[2]))
+            his.append(N if src[3] == ("k", None) else lin(src[3]))
             continue
         if isinstance(it, tuple) and it[:1] == ("range",) and isinstance(tgt, Lin) and it[3] == Lin(c=1) and isinstance(idx, Lin):
             c = idx - tgt
@@ -1534,6 +1542,8 @@ def _dmig(ctx):
                 continue
             i0, i1 = p_.d["index"][1]
             o.at(p_.node)
+            if R == C:
+                continue                # one index for rows and columns (square, symmetric): both positions are looked up in it
             rr, rc, cr, cc = M.mentions(i0, R), M.mentions(i0, C), M.mentions(i1, R), M.mentions(i1, C)
             if rr and cc and not rc and not cr:
                 continue
@@ -1683,6 +1693,214 @@ def _dmig(ctx):
     if v.v is True and kinds != {1, 2, 3, 4}:
         v.unknown({"matrix types seen": sorted(kinds)})
     v.report(ctx, "wtdmig: double-precision types (even mtype) use the D exponent", wd)
+    _dmig_layout(ctx, E, Er, terms, prim, wd, rd)
+
+
+def _affine(idx, E, lid):
+    """(offset, stride) of a field index that is linear in the pass number of loop `lid`: c + s * k for the iteration index k of a zip / enumerate
+    loop, or i + c for the variable of `for i in range(lo, hi, step)` (offset lo + c, stride step); a constant index is (c, 0)"""
+    idx = lin(idx)
+    loopsyms = [at for at in idx.t if isinstance(at, tuple) and at[:1] == ("sym",) and at[1].endswith(f"@L{lid}")]
+    others = [at for at in idx.t if at not in loopsyms]
+    if others or idx.c.denominator != 1:
+        return None
+    if not loopsyms:
+        return int(idx.c), 0
+    if len(loopsyms) != 1 or idx.t[loopsyms[0]].denominator != 1:
+        return None
+    sym, coef = loopsyms[0], int(idx.t[loopsyms[0]])
+    if sym[1].startswith("<k>"):
+        return int(idx.c), coef
+    head = next((e for e in E.events(("for", "while")) if e.d["loop"] == lid), None)
+    it = head.d.get("iter") if head is not None else None
+    if isinstance(it, tuple) and it[:1] == ("range",) and M.is_int_const(it[1]) and M.is_int_const(it[3]) and head.d.get("target") == lin(sym):
+        return int(idx.c) + coef * M.ival(it[1]), coef * M.ival(it[3])
+    return None
+
+
+def _card_fields(v, card):
+    """{field index (a linear form): coefficient} of a linear combination of fields of `card`; None if anything else is involved"""
+    v = lin(v)
+    out = {}
+    if v.c != 0:
+        return None
+    for at, coef in v.t.items():
+        if isinstance(at, tuple) and at[:1] == ("elem",) and at[1] == card and not isinstance(at[2], tuple):
+            out[lin(at[2])] = coef
+        else:
+            return None
+    return out
+
+
+def _complex_parts(v):
+    """(real part, imaginary part or None) of a value `re` or `re + 1j * im`"""
+    if isinstance(v, tuple) and v[:1] == ("elem",):
+        return v, None
+    if isinstance(v, Lin) and v.c == 0 and len(v.t) == 2 and all(c == 1 for c in v.t.values()):
+        re_, im_ = None, None
+        for at in v.t:
+            if isinstance(at, tuple) and at[:1] == ("mul",):
+                a, b = the_atom(at[1]), the_atom(at[2])
+                j = ("k", 1j)
+                if a == j and isinstance(b, tuple) and b[:1] == ("elem",):
+                    im_ = b
+                elif b == j and isinstance(a, tuple) and a[:1] == ("elem",):
+                    im_ = a
+            elif isinstance(at, tuple) and at[:1] == ("elem",):
+                re_ = at
+        if re_ is not None and im_ is not None:
+            return re_, im_
+    return None
+
+
+def _line_fields(v):
+    """the fields of a written line after its 8-column head: [(width, value)] - nested strings and `.replace` are looked through; None if a part has
+    no known width"""
+    out = []
+
+    def walk(x):
+        if isinstance(x, S):
+            for p_ in x.p:
+                if p_[0] == "fv":
+                    sp = M.parse_spec(p_[1]) if p_[1] is not None else None
+                    if isinstance(p_[2], S) and (sp is None or sp.width is None):
+                        if not walk(p_[2]):
+                            return False
+                    elif isinstance(p_[2], tuple) and p_[2][:2] == ("op", ".replace") and (sp is None or sp.width is None):
+                        if not walk(p_[2][2][0]):
+                            return False
+                    elif sp is None or sp.width is None:
+                        return False
+                    else:
+                        out.append((sp.width, p_[2]))
+                elif p_[0] == "str":
+                    if not walk(p_[1]):
+                        return False
+                elif p_[0] == "lit":
+                    out.append((len(p_[1]), S((p_,))))
+                else:
+                    return False
+            return True
+        if isinstance(x, tuple) and x[:2] == ("op", ".replace") and x[2]:
+            return walk(x[2][0])
+        return False
+    return out if walk(v) else None
+
+
+def _dmig_layout(ctx, E, Er, terms, prim, wd, rd):
+    """the fields rddmig takes from a column card are the fields wtdmig puts there: column grid / dof in fields 1, 2 of the card, then one term per
+    continuation line - row grid, row dof, real part, imaginary part - i.e. fields F(k+1), F(k+1)+1, +2, +3 for the k-th term with F fields on a
+    line; and the key searched in the row / column index is formed like the keys of that index (10 * id + dof)"""
+    # ---- writer: positions on the lines
+    w = V()
+    layouts = set()
+    F = None
+    for e in terms:
+        w.at(e.node)
+        text = e.d["args"][0]
+        if not (isinstance(text, S) and text.p and text.p[-1][0] == "lit" and text.p[-1][1].endswith("\n") and text.p[-1][1].count("\n") == 1):
+            w.unknown({"term line": repr(text)})
+            continue
+        body = S(text.p[:-1] + ((("lit", text.p[-1][1][:-1]),) if text.p[-1][1][:-1] else ()))
+        fl = _line_fields(body)
+        if not fl or not isinstance(fl[0][1], S) or fl[0][0] != 8:
+            w.unknown({"term line": repr(text)})
+            continue
+        widths = {x[0] for x in fl[1:]}
+        if len(widths) != 1 or next(iter(widths)) not in (8, 16) or 8 + sum(x[0] for x in fl[1:]) > 72:
+            w.bad({"term line": repr(text), "field widths": [x[0] for x in fl]})
+            continue
+        F = 64 // next(iter(widths))
+        roles = []
+        for _, val in fl[1:]:
+            part = _part(val)
+            base = val
+            while isinstance(base, tuple) and base[:1] == ("attr",) and base[2] in ("real", "imag"):
+                base = base[1]
+            if isinstance(base, tuple) and base[:1] == ("elem",) and M.is_int_const(base[2]) and isinstance(base[1], tuple) and base[1][:1] == ("elem",):
+                roles.append(("label", M.ival(base[2])))         # component of the row label rowids[row]
+            elif part in (".real", ".imag"):
+                roles.append(part[1:])
+            else:
+                roles.append("value")
+        layouts.add(tuple(roles))
+    real_l, cplx_l = (("label", 0), ("label", 1), "value"), (("label", 0), ("label", 1), "real", "imag")
+    if w.v is True and not layouts:
+        w.unknown("no term line")
+    elif w.v is True and not layouts <= {real_l, cplx_l}:
+        w.bad({"fields of a term line": [list(map(str, x)) for x in sorted(layouts, key=str)], "expected": "row grid, row dof, real part[, imaginary part]"})
+    # ---- reader: fields consumed
+    r = V()
+    seen = {"real": 0, "complex": 0}
+    for p_ in prim:
+        r.at(p_.node)
+        lid = p_.loops[-1]
+        parts = _complex_parts(p_.d["value"])
+        keys = [x[2][1] if isinstance(x, tuple) and x[:2] == ("op", "np.searchsorted") and len(x[2]) >= 2 else None for x in p_.d["index"][1]]
+        if parts is None or None in keys:
+            r.unknown({"entry": show(p_.d["value"])[:160], "stored at": show(p_.d["index"])[:200]})
+            continue
+        card = parts[0][1]
+        if parts[1] is not None and parts[1][1] != card:
+            r.unknown({"real and imaginary part from different cards": show(p_.d["value"])[:200]})
+            continue
+        kf = [_card_fields(k, card) for k in keys]
+        if None in kf:
+            r.unknown({"keys": [show(k)[:160] for k in keys]})
+            continue
+        pos = {}
+        okk = True
+        for which, fields in zip(("row", "col"), kf):
+            aff = {idx: _affine(idx, Er, lid) for idx in fields}
+            if None in aff.values():
+                okk = False
+                break
+            varying = any(a[1] != 0 for a in aff.values())
+            role = "row" if varying else "col"
+            if len(fields) == 2:
+                (ia, ca), (ib, cb) = sorted(fields.items(), key=lambda kv: -kv[1])
+                pos[role + " id"], pos[role + " dof"] = aff[ia], aff[ib]
+                pos[role + " key"] = (ca, cb)
+            elif len(fields) == 1:
+                (ia, ca), = fields.items()
+                pos[role + " id"] = aff[ia]
+                pos[role + " key"] = (ca,)
+            else:
+                okk = False
+        if not okk or "row id" not in pos or "row dof" not in pos or "col id" not in pos:
+            r.unknown({"keys": [show(k)[:160] for k in keys]})
+            continue
+        pos["real"] = _affine(parts[0][2], Er, lid)
+        pos["imag"] = _affine(parts[1][2], Er, lid) if parts[1] is not None else None
+        if pos["real"] is None or (parts[1] is not None and pos["imag"] is None):
+            r.unknown({"entry": show(p_.d["value"])[:160]})
+            continue
+        seen["complex" if parts[1] is not None else "real"] += 1
+        if F is None or w.v is not True:
+            continue
+        want = {"row id": (F, F), "row dof": (F + 1, F), "real": (F + 2, F), "col id": (1, 0)}
+        if "col dof" in pos:
+            want["col dof"] = (2, 0)
+        if parts[1] is not None:
+            want["imag"] = (F + 3, F)
+        got = {k: pos[k] for k in want}
+        if got != want:
+            r.bad({"fields read (first, step per term)": {k: list(v_) for k, v_ in got.items()}, "fields written": {k: list(v_) for k, v_ in want.items()},
+                   "note": f"a term line holds {F} fields; the card name is not counted"}, p_.node)
+        # the key searched must be formed like the keys of the array it is searched in (a * id + b * dof with the same a, b) - when that array is built
+        # where this rule can see it
+        for x, fields in zip(p_.d["index"][1], kf):
+            arr = x[2][0]
+            if len(fields) == 2 and isinstance(arr, Lin) and arr.c == 0 and len(arr.t) == 2:
+                ka, kb = sorted(fields.values(), reverse=True)
+                aa, ab = sorted(arr.t.values(), reverse=True)
+                if (ka, kb) != (aa, ab):
+                    r.bad({"key searched": f"{ka} * id + {kb} * dof", "keys of the index": f"{aa} * id + {ab} * dof"}, p_.node)
+    if r.v is True and not (seen["real"] and seen["complex"]):
+        r.unknown({"entries stored from real cards": seen["real"], "from complex cards": seen["complex"]})
+    w.report(ctx, "wtdmig: a term is one continuation line of 16-character fields: row grid, row dof, real part[, imaginary part]", wd)
+    r.report(ctx, "rddmig: the fields taken from a column card (column grid / dof, then row grid, row dof, real, imaginary part of each term) are the fields "
+                  "wtdmig writes there, and the key searched is formed like the keys of the index it is searched in", rd)
 
 
 def _counted_loop(E, head):
@@ -2097,14 +2315,22 @@ def _witness(symbols, facts, bad, **kw):
 def _related(syms):
     """two of the quantities are tied in a way the engine does not know: one is a property of the result of an opaque call on the other"""
     syms = list(syms)
+
+    def root(v):
+        while isinstance(v, tuple) and v[:1] in (("elem",), ("slice",), ("attr",)):
+            v = v[1]
+        return v
     for a in syms:
         if not _derived(a):
             continue
+        op = root(a[1])                     # the opaque call whose result a is a property of
         for b in syms:
             if b is a:
                 continue
             base = b[1] if isinstance(b, tuple) and b[:1] in (("len",), ("dim",)) else b
-            if M.mentions(a[1], base) or (isinstance(base, tuple) and base[:1] == ("sym",) and M.mentions(a[1], base)):
+            if root(base) == op:
+                continue                    # two properties of the same object (its length and its width) are independent
+            if any(M.mentions(x, base) for x in op[2:] if isinstance(x, (tuple, Lin, S))):
                 return True
     return False
 
@@ -2333,7 +2559,7 @@ def _has_thru(v):
 RULES = [
     ("C13-R1", r1_templates, 34),
     ("C13-R2", r2_nonempty_vector, 4),
-    ("C13-R3", r3_reader_strides, 10),
+    ("C13-R3", r3_reader_strides, 12),
     ("C13-R4", r4_sequence_coverage, 7),
 ]
 LEVEL = "other"
